@@ -540,10 +540,11 @@ impl LeakAcc {
             }
         }
     }
-    /// Some(message) when the run as a whole kept memory: more than 1 KiB net growth spread over
-    /// at least 8 inputs after the warm-up.
+    /// Some(message) when the run as a whole kept memory after the warm-up: more than 1 KiB net
+    /// growth spread over at least 8 inputs, or more than 8 KiB at all (a buffer that grows by
+    /// doubling shows as a few large steps). On the unchanged tree the sum is exactly 0.
     pub fn verdict(&self) -> Option<String> {
-        if self.sum_after_warmup > 1024 && self.positive_after_warmup >= 8 {
+        if (self.sum_after_warmup > 1024 && self.positive_after_warmup >= 8) || self.sum_after_warmup > 8192 {
             Some(format!(
                 "failed decodes of {} distinct inputs after a warm-up of {} left {} bytes allocated in total ({} of them left something behind), e.g. {:?}",
                 self.cases.saturating_sub(Self::WARMUP),
